@@ -177,6 +177,11 @@ def monFarmCreate (aa fee : Nat) (fc extra : Int) (fa : Nat) : Verdict :=
 def monFarmClose (remaining : Nat) (ownerGot fmOut others : Int) : Verdict :=
   firstFail [(ownerGot == (remaining : Int) && fmOut == (remaining : Int) && others == 0, "C11-close-refund")]
 
+/-- C03 (`mon_hop_k`): reported reserves of a constant-product pool after a hop of a route against the reserves reported after
+    the previous visit of that pool in the same route (or before the transaction): the product never decreases -/
+def monHopK (x y x' y' : Nat) : Verdict :=
+  firstFail [(decide (x * y ≤ x' * y'), "C03-k")]
+
 /-- C12 (`mon_quote`): the Simulation answer taken an instant before = what the swap reports (return, spread, fees) -/
 def monQuote (q x : List Nat) : Verdict :=
   firstFail [(q == x, "C12-quote")]
